@@ -353,6 +353,33 @@ impl<const M: usize> Sim<M> {
         ok
     }
 
+    /// An Allocator method returned a slice longer than the layout asked for: the caller may use all of it, so the
+    /// excess must be the arena's to give (inside a chunk, touching no other live block).
+    pub fn check_excess(&mut self, what: &str, p: usize, size: usize, len: usize, exclude: Option<u32>) {
+        if len <= size || p == 0 {
+            return;
+        }
+        if self.locate(p, len).is_none() {
+            let m = format!("{what}: the returned slice claims {len} bytes (layout size {size}) and reaches outside the usable part of the chunk");
+            self.v("C01", m.clone());
+            self.v("C12", m);
+            return;
+        }
+        let mut msgs = vec![];
+        for b in self.blocks.iter() {
+            if Some(b.id) == exclude || b.size == 0 {
+                continue;
+            }
+            if p + size < b.ptr + b.size && b.ptr < p + len {
+                msgs.push(format!("{what}: the returned slice claims {len} bytes (layout size {size}); its excess overlaps live block #{} [{:#x}, +{})", b.id, b.ptr, b.size));
+            }
+        }
+        for m in msgs {
+            self.v("C01", m.clone());
+            self.v("C12", m);
+        }
+    }
+
     pub fn add_block(&mut self, id: u32, ptr: usize, size: usize, align: usize, freeable: bool) {
         self.blocks.push(SBlock { id, ptr, size, align, freeable, slot: ptr, slot_size: size, kept: false });
         if self.blocks.iter().filter(|b| b.size > 0).count() >= 2 {
